@@ -43,8 +43,8 @@ CHECKS = {
         "cases = generated schedules (profiles repl/member/snap); non-trivial: >=1 entry committed beyond bootstrap and >=2 leaders elected; distinct by trace hash",
         2000, 20000),
     "C03": vsim("TestVerif_C03", ["fsm-agreement", "exactly-once"],
-        "cases = generated schedules (profiles repl/snap/client) with recording FSMs; non-trivial: >=5 updates committed and (leader change or FSM restore); distinct by trace hash",
-        2000, 20000),
+        "cases = generated schedules (profiles repl/snap/client, incl. templates lagsnap/divergesnap/staleinstall) with recording FSMs; non-trivial: >=5 updates committed and (leader change or FSM restore); distinct by trace hash. A process crash whose stack is inside the FSM apply path (stateMachine.*) also decides this property: it means the state machine was handed a gap",
+        2000, 20000, crash_deciding_re=r"stateMachine\."),
     "C04": vsim("TestVerif_C04", ["log-matching", "leader-append-only"],
         "cases = generated schedules (profiles repl/elect); non-trivial: some node truncated >=1 entry, or >=2 leaders with >=3 entries committed; distinct by trace hash",
         2000, 20000),
